@@ -88,7 +88,9 @@ def write_shards(d, rows, per):
     names, parse_errors = [], []
     header = "From VV.MYSQL Require Import MysqlCorr.\n"
     tail = ("Eval vm_compute in (mismatches_from shard_base cases).\n"
-            "Eval vm_compute in (verdicts_from shard_base cases).\n")
+            "Eval vm_compute in (verdicts_from shard_base cases).\n"
+            "Eval vm_compute in (hyp_stats cases).\n"
+            "Eval vm_compute in (outside_stats cases).\n")
     terms = []
     for i, r in enumerate(rows):
         t, errs = case_term(r)
@@ -114,6 +116,7 @@ def eval_dir(d, rows, per):
     names, parse_errors = write_shards(d, rows, per)
     res = vflib.run_shards(LAYER, d, "cases_mysql_*.v")
     mism, verdicts, errors = {}, {}, []
+    stats = {"modify_actions": 0, "modify_under_hypothesis": 0, "modify_on_autoinc_column": 0, "outside_known_classes": 0, "outside_and_holding": 0}
     for f, rc, o, dt in res:
         if rc != 0:
             errors.append({"shard": os.path.basename(f), "log": o[-1500:]})
@@ -134,7 +137,16 @@ def eval_dir(d, rows, per):
                 "known": [x.strip() == "true" for x in m.group(6).split(";") if x.strip()]}
         if found != n_expected:
             errors.append({"shard": os.path.basename(f), "log": "verdict parse: %d of %d" % (found, n_expected)})
-    return mism, verdicts, errors, parse_errors
+        if len(blocks) >= 4:
+            a = vflib.parse_nat_list(blocks[2])
+            b = vflib.parse_nat_list(blocks[3])
+            if len(a) == 3 and len(b) == 2:
+                stats["modify_actions"] += a[0]
+                stats["modify_under_hypothesis"] += a[1]
+                stats["modify_on_autoinc_column"] += a[2]
+                stats["outside_known_classes"] += b[0]
+                stats["outside_and_holding"] += b[1]
+    return mism, verdicts, errors, parse_errors, stats
 
 
 def build_all():
@@ -180,10 +192,10 @@ def run_mysql(tier, seed):
     meta = json.load(open(os.path.join(d, "meta.json")))
     rows = [json.loads(l) for l in open(os.path.join(d, "cases.jsonl"))]
     gen_s = time.time() - t0
-    mism, verdicts, errors, parse_errors = eval_dir(d, rows, sz["per_shard"])
+    mism, verdicts, errors, parse_errors, stats = eval_dir(d, rows, sz["per_shard"])
     out = {"mismatches": mism, "verdicts": verdicts, "errors": errors, "parse_errors": parse_errors[:20], "n_parse_errors": len(parse_errors),
            "meta": meta, "dir": d, "gen_s": round(gen_s, 1), "coq_s": round(time.time() - t0 - gen_s, 1), "cached": False,
-           "classifiers": classifier_order()}
+           "classifiers": classifier_order(), "stats": stats}
     json.dump(out, open(done, "w"))
     out["rows"] = rows
     return out
